@@ -96,6 +96,37 @@ def run(ctx, F, cg):
             ctx.violation("R04h", "%s|%s|%s|evaluation-error-dropped" % (owner, callee, how), where(r_, line), "%s drops the error of an expression evaluation (%s): the statement succeeds with a null / default in place of the failed value" % (owner, how))
     else:
         ctx.ok("R04h", "no-dropped-evaluation-error", "no evaluation error is dropped outside the reviewed sort-key sites")
+    # ---- R04j: the MERGE matchers test every pattern label on the candidate ----------------------------------------
+    ctx.rule("R04j", "MERGE's candidate pools come from the index of the pattern's FIRST label only (get_nodes_by_label), so each matcher — the single-node matcher in next_mut and the path matcher reached from merge_path — must itself read the candidate's Node.labels; without that read `MERGE (a:A:B {k:1})-[:R]->(c)` matches an existing (:A {k:1}) and creates nothing")
+    MO = "samyama::query::executor::operator::MergeOperator"
+    def _closure_set(root, stop=()):
+        seen, todo = set(), [root]
+        while todo:
+            q = todo.pop()
+            if q in seen or q not in F.fns or q in stop:
+                continue
+            seen.add(q)
+            rr = F.fns[q]
+            todo += [c for c in rr["closures"]]
+            todo += [c for c in rr["calls"] if c.startswith(MO + "::") or c.startswith("<" + MO + " as")]
+        return seen
+    roots = {"path-matcher": [p_ for p_ in F.fns if p_ == MO + "::merge_path"],
+             "node-matcher": [p_ for p_ in F.fns if p_.startswith("<" + MO + " as ") and p_.endswith("PhysicalOperator>::next_mut")]}
+    for nm, rs in sorted(roots.items()):
+        if len(rs) != 1:
+            ctx.anchor_failure("R04j", "MergeOperator %s root (found %d)" % (nm, len(rs)))
+            continue
+        stop = tuple(roots["path-matcher"]) if nm == "node-matcher" else ()
+        fs = _closure_set(rs[0], stop)
+        ctx.saw_fn(*sorted(fs))
+        pools = [q for q in fs if any(c.endswith("GraphStore::get_nodes_by_label") for c in F.fns[q]["calls"])]
+        readers = sorted(q for q in fs if any(x.endswith("graph::node::Node.labels") for x in F.fns[q]["r"]) or any(c.endswith(("Node::has_label", "GraphStore::node_has_label", "Node::labels")) for c in F.fns[q]["calls"]))
+        if not pools:
+            ctx.ok("R04j", "MergeOperator|" + nm, "no candidate pool drawn from a single label index in %d functions" % len(fs))
+        elif readers:
+            ctx.ok("R04j", "MergeOperator|" + nm, "candidate labels read by %s" % [q.replace(MO, "MergeOperator").split("PhysicalOperator>::")[-1] for q in readers][:3])
+        else:
+            ctx.violation("R04j", "MergeOperator|%s|labels-unchecked" % nm, where(F.fns[rs[0]]), "the %s draws candidates from the first label's index (get_nodes_by_label) and none of its %d functions reads the candidate's labels: a node carrying only that first label satisfies a multi-label MERGE pattern, so MERGE matches it instead of creating the missing node/path" % (nm, len(fs)))
     ctx.rule("R04c", "decisions about existing nodes (MERGE match test, constraint backfill) read the merged property view, not Node.properties alone")
     # ---- R04a ------------------------------------------------------------------------------------------
     dn = [r for p, r in F.fns.items() if "DeleteOperator as" in p and p.endswith("::next_mut")]
